@@ -6,6 +6,7 @@ import (
 	"fmt"
 	"math/big"
 	"sort"
+	"strings"
 	"time"
 
 	"github.com/bartossh/Computantis/src/accountant"
@@ -29,12 +30,14 @@ func hx(h Hash) string { return fmt.Sprintf("%x", h[:6]) }
 
 // recLogger is the logger stub: it records, never prints.
 type recLogger struct {
-	node   string
-	Fatals []string
-	Errors int
-	Infos  int
-	keep   bool
-	Lines  []string
+	node        string
+	Fatals      []string
+	Errors      int
+	Infos       int
+	Truncs      int // "Finished truncate" lines of the weight-triggered truncation loop
+	TruncStarts int
+	keep        bool
+	Lines       []string
 }
 
 func (l *recLogger) add(level, msg string) {
@@ -43,7 +46,16 @@ func (l *recLogger) add(level, msg string) {
 	}
 }
 func (l *recLogger) Debug(msg string) { l.add("debug", msg) }
-func (l *recLogger) Info(msg string)  { l.Infos++; l.add("info", msg) }
+func (l *recLogger) Info(msg string) {
+	l.Infos++
+	if strings.HasPrefix(msg, "Finished truncate") {
+		l.Truncs++
+	}
+	if strings.HasPrefix(msg, "Starting truncate") {
+		l.TruncStarts++
+	}
+	l.add("info", msg)
+}
 func (l *recLogger) Warn(msg string)  { l.add("warn", msg) }
 func (l *recLogger) Error(msg string) { l.Errors++; l.add("error", msg) }
 func (l *recLogger) Fatal(msg string) { l.Fatals = append(l.Fatals, msg); l.add("fatal", msg) }
@@ -52,8 +64,8 @@ func (l *recLogger) Fatal(msg string) { l.Fatals = append(l.Fatals, msg); l.add(
 type noTele struct{}
 
 func (noTele) CreateUpdateObservableHistogram(name, description string) {}
-func (noTele) RecordHistogramTime(name string, t time.Duration) bool     { return true }
-func (noTele) RecordHistogramValue(name string, f float64) bool          { return true }
+func (noTele) RecordHistogramTime(name string, t time.Duration) bool    { return true }
+func (noTele) RecordHistogramValue(name string, f float64) bool         { return true }
 
 // AccCall is one recorded call of a service into its ledger.
 type AccCall struct {
@@ -100,7 +112,9 @@ func (a *accRec) AddLeaf(ctx context.Context, leaf *accountant.Vertex) error {
 	a.rec("AddLeaf", h, err)
 	return err
 }
-func (a *accRec) StreamDAG(ctx context.Context) <-chan *accountant.Vertex { return a.book.StreamDAG(ctx) }
+func (a *accRec) StreamDAG(ctx context.Context) <-chan *accountant.Vertex {
+	return a.book.StreamDAG(ctx)
+}
 func (a *accRec) LoadDag(cancelF context.CancelCauseFunc, cVrx <-chan *accountant.Vertex) {
 	a.book.LoadDag(cancelF, cVrx)
 }
@@ -178,51 +192,51 @@ type Node struct {
 
 // World is the state of one simulated run.
 type World struct {
-	Seed     uint64
-	Cfg      Config
-	Nodes    []*Node
-	Wallets  []*wallet.Wallet // client wallets
-	WAddr    []string
-	GenesisReceiver int // index into Wallets
-	Supply   spice.Melange
-	Net      *SimNet
-	Archive  *Archive
-	AccCalls []AccCall
-	Created  []CreatedRec
-	Verifier wallet.Helper
-	ctx      context.Context
-	cancel   context.CancelFunc
-	rng      *prng
-	Probes   map[string]int64
-	Faults   map[string]int64
-	Viol     []Violation
-	stepIdx  int
-	Notes    []string
-	dataLongevity uint64
-	nstates  map[int]*nodeState
-	shapes   map[string]bool
-	pending  []*opHandle
-	Results  []StepResult
-	Trxs     []*transaction.Transaction
-	Panics   []PanicRec
-	curTag   string
-	KnobMissing []string
-	GenesisVertex accountant.Vertex
-	strangerAddr string
+	Seed               uint64
+	Cfg                Config
+	Nodes              []*Node
+	Wallets            []*wallet.Wallet // client wallets
+	WAddr              []string
+	GenesisReceiver    int // index into Wallets
+	Supply             spice.Melange
+	Net                *SimNet
+	Archive            *Archive
+	AccCalls           []AccCall
+	Created            []CreatedRec
+	Verifier           wallet.Helper
+	ctx                context.Context
+	cancel             context.CancelFunc
+	rng                *prng
+	Probes             map[string]int64
+	Faults             map[string]int64
+	Viol               []Violation
+	stepIdx            int
+	Notes              []string
+	dataLongevity      uint64
+	nstates            map[int]*nodeState
+	shapes             map[string]bool
+	pending            []*opHandle
+	Results            []StepResult
+	Trxs               []*transaction.Transaction
+	Panics             []PanicRec
+	curTag             string
+	KnobMissing        []string
+	GenesisVertex      accountant.Vertex
+	strangerAddr       string
 	concurrentActivity bool
-	adv      *wallet.Wallet
-	Crafted  []accountant.Vertex
-	syncStuck [][2]int
-	Mutants  []mutantRec
-	streamBad *pb.Vertex
-	panicSeen map[string]bool
-	nowhereNode *Node
-	parkedSeen map[int]int
-	Byz      map[int]bool
-	seenDelivery map[Hash]bool
-	Ops      int
-	taskPanicReported map[int]bool
-	stuck    []*opHandle
+	adv                *wallet.Wallet
+	Crafted            []accountant.Vertex
+	syncStuck          [][2]int
+	Mutants            []mutantRec
+	streamBad          *pb.Vertex
+	panicSeen          map[string]bool
+	nowhereNode        *Node
+	parkedSeen         map[int]int
+	Byz                map[int]bool
+	seenDelivery       map[Hash]bool
+	Ops                int
+	taskPanicReported  map[int]bool
+	stuck              []*opHandle
 }
 
 // CreatedRec remembers a vertex created by a node (CreateLeaf success).
@@ -236,8 +250,8 @@ func (w *World) noteCreated(n *Node, v *accountant.Vertex) {
 	w.Created = append(w.Created, CreatedRec{Node: n.Idx, V: *v, At: simrt.Now()})
 }
 
-func (w *World) probe(name string)         { w.Probes[name]++ }
-func (w *World) fault(name string)         { w.Faults[name]++ }
+func (w *World) probe(name string) { w.Probes[name]++ }
+func (w *World) fault(name string) { w.Faults[name]++ }
 func (w *World) note(f string, a ...any) {
 	if len(w.Notes) < 200 {
 		w.Notes = append(w.Notes, fmt.Sprintf(f, a...))
